@@ -1,1 +1,43 @@
-(* placeholder: see DESIGN.md; theorems for C09 are added below as they are proved *)
+(* C09: -optimize-grammar preserves the language and what actions see.
+   Proved: the local rewrites of the optimizer are laws of the specification's combinators, for every
+   evaluator that treats the nested node as Ref defines it (so for Ref at any fuel):
+   - a choice nested in a choice can be flattened: the outcome is identical, value included;
+   - a sequence nested in a sequence can be flattened: position, state, scope and the whole log
+     (hence every action's text, pos and labels) are identical, the value is only regrouped;
+   - two adjacent literals with the same i flag succeed exactly when their concatenation does, and
+     end at the same position.
+   Not proved: that ast.Optimize is a composition of such rewrites (and of inlining and class merging);
+   that is decided on every run by executing the real optimizer and comparing the unoptimized and the
+   optimized grammar under Ref, the model and real parsers (C09_whole_optimizer_partial, DESIGN.md). *)
+From PV Require Import Lib.Base Lib.Utf8 Syntax.RGrammar Syntax.Code Model.PState Spec.Pos Model.Runtime Spec.Ref Proofs.OptLaws.
+
+Theorem C09_choice_in_choice_flattens : forall ev H R inv n a b d sc g m,
+  (forall g0 m0, ev H R inv (EAlt n b) [] g0 m0 = ralt ev H R inv b [] g0 m0) ->
+  ralt ev H R inv (a ++ EAlt n b :: d) sc g m = ralt ev H R inv (a ++ b ++ d) sc g m.
+Proof. exact choice_in_choice_flattens. Qed.
+Print Assumptions C09_choice_in_choice_flattens.
+
+Theorem C09_sequence_in_sequence_flattens : forall ev H R inv n a b d sc g m,
+  (forall sc0 g0 m0, ev H R inv (ESeq n b) sc0 g0 m0 = rseq ev H R inv b [] sc0 g0 m0) ->
+  same_upto_grouping (rseq ev H R inv (a ++ ESeq n b :: d) [] sc g m) (rseq ev H R inv (a ++ b ++ d) [] sc g m).
+Proof. exact sequence_in_sequence_flattens. Qed.
+Print Assumptions C09_sequence_in_sequence_flattens.
+
+Theorem C09_adjacent_literals_concatenate : forall c ev H R inv lf n1 n2 n rs1 rs2 ic w1 w2 w sc g m,
+  (forall nn rs ww sc0 g0 m0, ev H R inv (ELit nn rs ic ww) sc0 g0 m0 = reval_body c ev lf H R inv (ELit nn rs ic ww) sc0 g0 m0) ->
+  same_extent (rseq ev H R inv [ELit n1 rs1 ic w1; ELit n2 rs2 ic w2] [] sc g m)
+              (reval_body c ev lf H R inv (ELit n (rs1 ++ rs2) ic w) sc g m).
+Proof. exact adjacent_literals_concatenate. Qed.
+Print Assumptions C09_adjacent_literals_concatenate.
+
+(* the hypotheses are unfolding equations of Ref itself: reval (S f) evaluates a nested choice as the choice of its
+   alternatives evaluated by reval f, after counting one expression.  Carrying the laws over to reval at a fixed
+   fuel therefore needs monotonicity of reval in its fuel and tolerance of the counter, which is not proved here:
+   the laws are about fuel-free evaluators; their use for the real optimizer is validated by execution. *)
+Example C09_hypothesis_met_by_Ref : forall c f H R inv n b g m,
+  o_maxexpr (rO c) = 0%N ->
+  exists m', reval c (S f) H R inv (EAlt n b) [] g m = ralt (reval c f) H R inv b [] g m'.
+Proof.
+  intros c f H R inv n b g m Hb. cbn [reval]. unfold over_budget. rewrite Hb. cbn [N.eqb negb andb].
+  eexists. reflexivity.
+Qed.
